@@ -63,7 +63,8 @@ def linearize(spec0, ops, final_ok, relax=True, apply=None):
             if any(p.ret < o.call for p in remaining if p is not o):
                 continue
             s2 = copy.deepcopy(spec)
-            s2.culls = False
+            if hasattr(s2, "culls"):
+                s2.culls = False
             want = apply(s2, o.op)
             rest = [p for p in remaining if p is not o]
             if same(want, o.result):
